@@ -288,6 +288,12 @@ func (c *ShipConnection) HandleIncomingWebsocketMessage(message []byte) {
 
 // checks wether the provided messages is a SHIP message
 func (c *ShipConnection) hasSpineDatagram(message []byte) bool {
+	// SHIP control and end messages never carry SPINE data,
+	// even if they contain the word datagram e.g. in a SHIP ID
+	if len(message) > 0 && (message[0] == model.MsgTypeControl || message[0] == model.MsgTypeEnd) {
+		return false
+	}
+
 	return bytes.Contains(message, []byte("datagram"))
 }
 
